@@ -271,8 +271,51 @@ func emptyTermBatch(n int, idPrefix string) spec.Batch {
 	return b
 }
 
+// Cells1Menu: every single-document batch of the 12-entry cell menu over fields {a,b}
+// (index = cellA*NumCells + cellB), with stored values and doc values on: the build
+// alphabet of C01 reused as merge inputs, so that every pair of cell shapes meets in a merge.
+func Cells1Menu() []spec.Batch {
+	var rv []spec.Batch
+	for ca := 0; ca < NumCells; ca++ {
+		for cb := 0; cb < NumCells; cb++ {
+			b := BatchCase{Fam: "cells", N: 1, Cells: []int{ca, cb}, Opt: 7}.Batch()
+			b.Docs[0].ID = fmt.Sprintf("c%d-%d", ca, cb)
+			rv = append(rv, b)
+		}
+	}
+	return rv
+}
+
+// Stored1Menu: every single-document batch of the 9-entry stored-field cell menu.
+func Stored1Menu() []spec.Batch {
+	var rv []spec.Batch
+	for ca := 0; ca < NumStoredCells; ca++ {
+		for cb := 0; cb < NumStoredCells; cb++ {
+			b := StoredCase{N: 1, Cells: []int{ca, cb}}.Batch()
+			b.Docs[0].ID = fmt.Sprintf("s%d-%d", ca, cb)
+			rv = append(rv, b)
+		}
+	}
+	return rv
+}
+
+var menuCache = map[string][]spec.Batch{}
+
 func menuOf(name string) []spec.Batch {
+	if m, ok := menuCache[name]; ok {
+		return m
+	}
+	m := menuOf1(name)
+	menuCache[name] = m
+	return m
+}
+
+func menuOf1(name string) []spec.Batch {
 	switch name {
+	case "cells1":
+		return Cells1Menu()
+	case "stored1":
+		return Stored1Menu()
 	case "big":
 		return BigMenu()
 	case "text":
